@@ -17,9 +17,14 @@ import (
 var intPool = []int{0, 1, -1, 2, 3, 5, 7, -7, 100, math.MaxInt64, math.MinInt64, 1 << 53, (1 << 53) + 1, -(1 << 53) - 1, 6, 4}
 var floatPool = []float64{0, math.Copysign(0, -1), 1, -1, 2.5, -2.5, 1.5, 3, 5, 1e300, -1e300, math.Inf(1), math.Inf(-1),
 	math.NaN(), math.Float64frombits(0x7FF8000000000002), math.Float64frombits(0xFFF8000000000001), 5e-324, 0.1, 7}
-var strPool = []string{"", "a", "b", "A", "ab", "abc", "B", "a%", "%", "x\x00", "\x00", "é", "ɐb", "a\u0080", "aa", "ba", "Ab", "zz", "a.c", "a,b", "q\"r", "line\nfeed"}
+var strPool = []string{"", "a", "b", "A", "ab", "abc", "B", "a%", "%", "x\x00", "\x00", "é", "ɐb", "ısı", "ſt", "a\ufffdb", "a\u0080", "aa", "ba", "Ab", "zz", "a.c", "a,b", "q\"r", "line\nfeed"}
+
 // forceCaseCluster makes genColumn draw enum values from caseCluster (set by the directed like/ilike family)
 var forceCaseCluster bool
+
+// values whose upper case has another encoded length than the value (2 -> 3 bytes, 2 -> 1, 3 -> 2), alone, first,
+// in the middle and last in the string
+var upperPool = []string{"ɐ", "ɐb", "xɐ", "aɐb", "ısı", "ſt", "aſ", "ⱥ", "ⱥz", "qⱥ", "ɫɫ", "éɐ", "ǆ", "ß", "ﬁ", "abc"}
 
 var caseCluster = []string{"a", "A", "ab", "Ab", "aB", "AB", "b", "B"}
 var namePool = []string{"A", "B", "C", "D", "E", "col", "x y", "é", "a\"b", "T"}
@@ -47,8 +52,12 @@ func genColumn(r *hlib.Rng, name, kind string, n int, small bool) genCol {
 	switch kind {
 	case "int":
 		c.ints = make([]int, n)
+		extreme := r.Chance(1, 6)
 		for i := range c.ints {
-			if r.Chance(3, 4) {
+			if extreme {
+				// values further than 2^63 apart: differences overflow
+				c.ints[i] = []int{math.MaxInt64, math.MinInt64, -1, 0, 1, math.MaxInt64 - 1, math.MinInt64 + 1, 6e18, -6e18, -2}[pick(10)]
+			} else if r.Chance(3, 4) {
 				c.ints[i] = intPool[pick(len(intPool))]
 			} else {
 				c.ints[i] = r.Intn(20) - 10
@@ -75,9 +84,14 @@ func genColumn(r *hlib.Rng, name, kind string, n int, small bool) genCol {
 		}
 	case "string":
 		c.strs = make([]*string, n)
+		special := r.Chance(1, 6)
 		for i := range c.strs {
 			if r.Chance(1, 6) {
 				c.strs[i] = nil
+			} else if forceCaseCluster {
+				c.strs[i] = sp(caseCluster[r.Intn(len(caseCluster))])
+			} else if special {
+				c.strs[i] = sp(upperPool[pick(len(upperPool))])
 			} else {
 				c.strs[i] = sp(strPool[pick(len(strPool))])
 			}
@@ -87,7 +101,9 @@ func genColumn(r *hlib.Rng, name, kind string, n int, small bool) genCol {
 		vals := []string{}
 		k := 1 + r.Intn(5)
 		pool := strPool
-		if r.Chance(1, 3) || forceCaseCluster {
+		if r.Chance(1, 7) && !forceCaseCluster {
+			pool = upperPool
+		} else if r.Chance(1, 3) || forceCaseCluster {
 			pool = caseCluster // values that differ only in case: several of them match one ilike pattern
 			if forceCaseCluster {
 				k = 3 + r.Intn(4)
@@ -282,11 +298,44 @@ func deriveCols(r *hlib.Rng, qf qframe.QFrame, cols []genCol, s *hlib.Suite) (qf
 	return q, cols, append(pre, h...)
 }
 
+// rearrange: an arbitrary rearrangement of the rows through a helper column that is dropped again: two times in
+// three the first and the last row stay where they are and only rows in between move (all of them, or one exchange)
+func rearrange(r *hlib.Rng, qf qframe.QFrame) (qframe.QFrame, string) {
+	n := qf.Len()
+	ranks := r.Perm(n)
+	if r.Chance(2, 3) && n >= 4 {
+		mid := r.Perm(n - 2)
+		for j := range mid {
+			ranks[j+1] = mid[j] + 1
+		}
+		ranks[0], ranks[n-1] = 0, n-1
+		if r.Chance(1, 2) { // a single exchange in the middle
+			for j := range ranks {
+				ranks[j] = j
+			}
+			a := 1 + r.Intn(n-2)
+			b := 1 + r.Intn(n-2)
+			ranks[a], ranks[b] = ranks[b], ranks[a]
+		}
+	}
+	pos := 0
+	helper := "zz-order-helper"
+	qf = qf.Apply(qframe.Instruction{Fn: func() int { pos++; return ranks[pos-1] }, DstCol: helper}).Sort(qframe.Order{Column: helper}).Drop(helper)
+	return qf, fmt.Sprintf("rearranged(%v)", ranks)
+}
+
+// forceRearrange: the family wants a rearranged index as the last derivation step (half of the time)
+var forceRearrange bool
+
 func deriveIndex(r *hlib.Rng, qf qframe.QFrame, cols []genCol, s *hlib.Suite) (qframe.QFrame, []string) {
 	hist := []string{}
 	k := r.Intn(4)
 	for i := 0; i < k && qf.Len() > 0; i++ {
-		switch r.Intn(5) {
+		switch r.Intn(6) {
+		case 5:
+			var h string
+			qf, h = rearrange(r, qf)
+			hist = append(hist, h)
 		case 0, 1:
 			c := cols[r.Intn(len(cols))]
 			o := qframe.Order{Column: c.name, Reverse: r.Bool(), NullLast: r.Bool()}
@@ -320,6 +369,14 @@ func deriveIndex(r *hlib.Rng, qf qframe.QFrame, cols []genCol, s *hlib.Suite) (q
 			qf = qf.Distinct(groupby.Columns(c.name), groupby.Null(r.Bool()))
 			hist = append(hist, "distinct("+c.name+")")
 		}
+		if qf.Err != nil {
+			panic(fmt.Sprintf("derive: %v", qf.Err))
+		}
+	}
+	if forceRearrange && qf.Len() >= 4 && r.Chance(1, 2) {
+		var h string
+		qf, h = rearrange(r, qf)
+		hist = append(hist, h)
 		if qf.Err != nil {
 			panic(fmt.Sprintf("derive: %v", qf.Err))
 		}
